@@ -572,7 +572,7 @@ func c09Values1(c *fw.Ctx, part, parts int) {
 					continue
 				}
 				if !c09Same(es[0].Value, v.V) {
-					c.Report("app-set-read-differs/single/"+sig, fmt.Sprintf("%s: application set %v, controller reads %v", cc.Name, trunc([]byte(fmt.Sprint(v.V)), 60), trunc([]byte(fmt.Sprint(es[0].Value)), 60)), cas)
+					c.Report("app-set-read-differs/single/"+sig, fmt.Sprintf("%s: application set %s, controller reads %s", cc.Name, trunc([]byte(fmt.Sprint(v.V)), 60), trunc([]byte(fmt.Sprint(es[0].Value)), 60)), cas)
 					continue
 				}
 				// in a multi-id list
